@@ -202,3 +202,65 @@ Proof.
   - inversion Hp; subst. cbn [fst snd]. split; [reflexivity|exact E].
   - exact (IH rest eq_refl i p Hp).
 Qed.
+
+(* ---------- file header ---------- *)
+Definition hdr_wf (h : hdr) : Prop :=
+  In (h_format h) format_codes /\ h_comp h <= 2 /\ h_z0 h <= 255 /\ h_z1 h <= 255 /\
+  h_b0 h <= u32_max /\ h_b1 h <= u32_max /\ h_b2 h <= u32_max /\ h_b3 h <= u32_max /\
+  h_moff h <= u64_max /\ h_mlen h <= u64_max /\ h_boff h <= u64_max /\ h_blen h <= u64_max.
+
+Lemma bytes_eqb_refl a : bytes_eqb a a = true.
+Proof. induction a as [|x r IH]; [reflexivity|]. cbn [bytes_eqb]. rewrite N.eqb_refl, IH. reflexivity. Qed.
+
+Theorem hdr_roundtrip h : hdr_wf h -> length (hdr_to_blob h) = 66%nat /\ hdr_from_blob (hdr_to_blob h) = Ok h.
+Proof.
+  intros (Hf & Hc & Hz0 & Hz1 & H0 & H1 & H2 & H3 & Hmo & Hml & Hbo & Hbl). unfold u32_max, u64_max in *.
+  assert (Hf255 : h_format h <= 35).
+  { unfold format_codes in Hf. cbn [In] in Hf. repeat (destruct Hf as [<-|Hf]; [lia|]). destruct Hf. }
+  split; [unfold hdr_to_blob; rewrite !app_length, !be_length; reflexivity|].
+  unfold hdr_from_blob, hdr_to_blob.
+  replace (Nat.eqb (length _) 66) with true by (symmetry; apply Nat.eqb_eq; rewrite !app_length, !be_length; reflexivity).
+  cbn [negb]. change (firstn 14 (vt_magic ++ ?x)) with vt_magic. rewrite bytes_eqb_refl. cbn [negb].
+  change (skipn 14 (vt_magic ++ ?x)) with x.
+  rewrite take_be_app by (cbn; lia). cbn [obind].
+  replace (existsb (N.eqb (h_format h)) format_codes) with true.
+  2:{ symmetry. apply existsb_exists. exists (h_format h). split; [exact Hf|apply N.eqb_refl]. }
+  cbn [negb].
+  rewrite take_be_app by (cbn; lia). cbn [obind]. ltb_false.
+  rewrite take_be_app by (cbn; lia). cbn [obind].
+  rewrite take_be_app by (cbn; lia). cbn [obind].
+  rewrite take_be_app by (cbn; lia). cbn [obind].
+  rewrite take_be_app by (cbn; lia). cbn [obind].
+  rewrite take_be_app by (cbn; lia). cbn [obind].
+  rewrite take_be_app by (cbn; lia). cbn [obind].
+  rewrite take_be_app by (cbn; lia). cbn [obind].
+  rewrite take_be_app by (cbn; lia). cbn [obind].
+  rewrite take_be_app by (cbn; lia). cbn [obind].
+  rewrite <- (app_nil_r (be_bytes 8 (h_blen h))). rewrite take_be_app by (cbn; lia). cbn [obind].
+  destruct h; reflexivity.
+Qed.
+
+(* what from_blob accepts carries one of the ten format codes and one of the three compression
+   codes: the declared format and compression are those of the writer, or the file is refused *)
+Theorem hdr_accepts_known_codes l h : hdr_from_blob l = Ok h -> In (h_format h) format_codes /\ h_comp h <= 2 /\ length l = 66%nat.
+Proof.
+  unfold hdr_from_blob. destruct (Nat.eqb (length l) 66) eqn:El; cbn [negb]; [|discriminate]. apply Nat.eqb_eq in El.
+  destruct (bytes_eqb _ _); cbn [negb]; [|discriminate].
+  destruct (take_be 1 _) as [[f r]| | |]; cbn [obind]; try discriminate.
+  destruct (existsb (N.eqb f) format_codes) eqn:Ef; cbn [negb]; [|discriminate].
+  destruct (take_be 1 r) as [[c r2]| | |]; cbn [obind]; try discriminate.
+  destruct (2 <? c) eqn:Ec; [discriminate|].
+  repeat (match goal with |- obind (take_be ?n ?x) _ = _ -> _ => destruct (take_be n x) as [[? ?]| | |]; cbn [obind]; try discriminate end).
+  intros H; inversion H; subst. cbn [h_format h_comp]. apply N.ltb_ge in Ec. split; [|split; [exact Ec|exact El]].
+  apply existsb_exists in Ef. destruct Ef as (x & Hx & E). apply N.eqb_eq in E. subst. exact Hx.
+Qed.
+
+Theorem hdr_from_blob_soft l : soft (hdr_from_blob l).
+Proof.
+  unfold hdr_from_blob. destruct (negb _); [exact I|]. destruct (negb _); [exact I|].
+  repeat (match goal with
+          | |- soft (obind (take_be ?n ?x) _) => destruct (take_be_soft n x) as [E|(? & ? & E)]; rewrite E; cbn [obind]; [exact I|]; clear E
+          | |- soft (if ?c then _ else _) => destruct c; [exact I|]
+          end).
+  exact I.
+Qed.
